@@ -1210,11 +1210,13 @@ Lemma fold_pb_thread g views st :
   fold_steps (pb_thread g views) (st, PBLoop (Ok [])) =
   (fst (parse_blobs_mem g views st), PBDone (snd (parse_blobs_mem g views st))).
 Proof.
-  unfold pb_thread, fold_steps. rewrite fold_left_app. cbn [fold_left].
-  fold (fold_steps (map (pb_loop_step g) views) (st, PBLoop (Ok []))).
-  rewrite fold_loop_steps. unfold pb_finish_step, parse_blobs_mem, parse_blobs_gen, mbind. cbn [fst snd].
-  destruct (parse_sparse_loop_mem g true views [] st) as [st1 [seqs| |]]; cbn [fst snd]; try reflexivity.
-  destruct (mmap finish_mseq (rev seqs) st1); reflexivity.
+  unfold pb_thread.
+  assert (X : fold_steps (map (pb_loop_step g) views ++ [pb_finish_step]) (st, PBLoop (Ok [])) =
+              pb_finish_step (fold_steps (map (pb_loop_step g) views) (st, PBLoop (Ok [])))).
+  { unfold fold_steps. rewrite fold_left_app. reflexivity. }
+  rewrite X, fold_loop_steps. clear X.
+  unfold pb_finish_step, parse_blobs_mem, parse_blobs_gen, mbind. cbn [fst snd].
+  destruct (parse_sparse_loop_mem g true views [] st) as [st1 [seqs| |]]; cbn [fst snd]; reflexivity.
 Qed.
 
 (* N concurrent ParseBlobs calls over the same share views, ANY interleaving of
